@@ -11,17 +11,16 @@ open PttVerif PttVerif.C09
 /-! #### the title: announcement tag -/
 
 /-- tnSafeStrip never faults, whatever the title's length (0..5 bytes included) and the author's role. -/
-theorem tnSafeStrip_total (role : Bool) (title : Bytes) : ∃ t, tnSafeStrip role title = .ok t :=
-  ⟨_, tnSafeStrip_eq role title⟩
+theorem tnSafeStrip_total (c : Cfg) (role : Bool) (title : Bytes) : ∃ t, tnSafeStrip c role title = .ok t :=
+  ⟨_, tnSafeStrip_eq c role title⟩
 
 /-- before 2df0902 (`title[:len(TN)]`) a non-privileged author's one-byte title panicked ... -/
-theorem before_fix_panics : tnSafeStripOld false [88] = .error .panic := by rfl
+theorem before_fix_panics : tnSafeStripOld {} false [88] = .error .panic := by rfl
 
 /-- ... and so did exactly every title shorter than the tag (capacity = length). -/
-theorem before_fix_panics_iff (title : Bytes) :
-    tnSafeStripOld false title = .error .panic ↔ title.length < TN.length := by
+theorem before_fix_panics_iff (c : Cfg) (hA : c.allowFreeTn = false) (title : Bytes) :
+    tnSafeStripOld c false title = .error .panic ↔ title.length < TN.length := by
   unfold tnSafeStripOld tnSafeStripWith isTnAllowedWith isTnAnnounceOld
-  have hA : Gen.Post.ALLOW_FREE_TN_ANNOUNCE = false := rfl
   simp only [hA, Bool.false_eq_true, if_false]
   by_cases h : TN.length ≤ title.length
   · have : ¬ title.length < TN.length := by omega
@@ -32,18 +31,19 @@ theorem before_fix_panics_iff (title : Bytes) :
 
 /-- what tnSafeStrip returns: a leading announcement tag is cut off for an author who may not use it
 (`role = false`); every other title is returned unchanged. -/
-theorem tnSafeStrip_spec (role : Bool) (title : Bytes) :
-    (∀ r, role = false → Gen.Post.ALLOW_FREE_TN_ANNOUNCE = false → title = TN ++ r → tnSafeStrip role title = .ok r) ∧
-    (role = true → tnSafeStrip role title = .ok title) ∧
-    ((¬ ∃ r, title = TN ++ r) → tnSafeStrip role title = .ok title) := by
+theorem tnSafeStrip_spec (c : Cfg) (role : Bool) (title : Bytes) :
+    (∀ r, role = false → c.allowFreeTn = false → title = TN ++ r → tnSafeStrip c role title = .ok r) ∧
+    (role = true ∨ c.allowFreeTn = true → tnSafeStrip c role title = .ok title) ∧
+    ((¬ ∃ r, title = TN ++ r) → tnSafeStrip c role title = .ok title) := by
   refine ⟨?_, ?_, ?_⟩
   · intro r hr hA he
     have hp : hasPrefix title TN = true := (hasPrefix_iff _ _).mpr ⟨r, he⟩
-    have hk : tnKeeps role title = false := by simp [tnKeeps, hr, hA, hp]
+    have hk : tnKeeps c role title = false := by simp [tnKeeps, hr, hA, hp]
     rw [tnSafeStrip_eq, hk, he]
     simp
   · intro hr
-    rw [tnSafeStrip_eq]; simp [tnKeeps, hr]
+    rw [tnSafeStrip_eq]
+    rcases hr with hr | hr <;> simp [tnKeeps, hr]
   · intro hn
     have hp : hasPrefix title TN = false := by
       cases h : hasPrefix title TN
@@ -51,9 +51,10 @@ theorem tnSafeStrip_spec (role : Bool) (title : Bytes) :
       · exact absurd ((hasPrefix_iff _ _).mp h) hn
     rw [tnSafeStrip_eq]; simp [tnKeeps, hp]
 
-example : tnSafeStrip false (TN ++ [104, 105]) = .ok [104, 105] := by rfl
-example : tnSafeStrip true (TN ++ [104, 105]) = .ok (TN ++ [104, 105]) := by rfl
-example : tnSafeStrip false [91, 164] = .ok [91, 164] := by rfl
+example : tnSafeStrip {} false (TN ++ [104, 105]) = .ok [104, 105] := by rfl
+example : tnSafeStrip {} true (TN ++ [104, 105]) = .ok (TN ++ [104, 105]) := by rfl
+example : tnSafeStrip {} false [91, 164] = .ok [91, 164] := by rfl
+example : tnSafeStrip { allowFreeTn := true } false (TN ++ [104, 105]) = .ok (TN ++ [104, 105]) := by rfl
 
 /-- `"[class] title"`: the class prefix rule of doPostArticleFullTitle. -/
 theorem fullTitle_spec (cls title : Bytes) :
@@ -62,7 +63,7 @@ theorem fullTitle_spec (cls title : Bytes) :
   cases cls <;> simp
 
 /-- the published title of any request is computed without a fault. -/
-theorem postTitle_total (q : Req) : postTitle q.role q.cls q.title = .ok (pTitle q) := postTitle_eq q
+theorem postTitle_total (q : Req) : postTitle q.cfg q.role q.cls q.title = .ok (pTitle q) := postTitle_eq q
 
 /-! #### cursor-movement escapes are defused -/
 
@@ -122,9 +123,9 @@ theorem keptLines_eq (ls : List Bytes) : keptLines ls = if ls.getLast? = some []
 header ++ (every kept line, trimmed, defused, "\n") ++ signature ++ URL line. -/
 theorem writeFile_content (q : Req) (e : Env) :
     articleFile q e (pTitle q) = .ok
-      (header q.anon q.userID q.nick q.board (pTitle q) e.ctime
+      (header q.cfg q.anon q.userID q.nick q.board (pTitle q) e.ctime
         ++ (keptLines q.lines).flatMap (fun l => scan false (trim l) ++ [10])
-        ++ signature (useAnony q.anon) q.ip q.frm ++ urlLine q.board e.name, pEntropy q) :=
+        ++ signature (useAnony q.cfg q.anon) q.ip q.frm ++ urlLine q.cfg q.board e.name, pEntropy q) :=
   articleFile_eq q e
 
 /-- every stored body line is free of cursor-movement sequences and of trailing blanks. -/
@@ -186,7 +187,7 @@ theorem post_effect (s : St) (q : Req) (e : Env) (b : BoardSt)
       lookupFile b'.files e.name = some (pContent q e) ∧
       (∀ n, n ≠ e.name → lookupFile b'.files n = lookupFile b.files n) ∧
       (∀ u, numPostsOf s'.users u =
-        (numPostsOf s.users u).map fun n => if u = q.userID ∧ useAnony q.anon = false then n + 1 else n) := by
+        (numPostsOf s.users u).map fun n => if u = q.userID ∧ useAnony q.cfg q.anon = false then n + 1 else n) := by
   have hrl : (pRecord q e).length = dirSz := postRecord_length ..
   have hpub := publish_eq b e.name (pContent q e) (pRecord q e) hrl
   refine ⟨nextSt s q e b, (b.publish e.name (pContent q e) (pRecord q e)).1.setTotal, post_eq s q e b (hwf ▸ hb), ?_, ?_, hrl, ?_, ?_, ?_, ?_, ?_, ?_, ?_⟩
@@ -210,7 +211,7 @@ theorem post_effect (s : St) (q : Req) (e : Env) (b : BoardSt)
     simp [BoardSt.setTotal, BoardSt.publish, lookupFile, List.find?_cons, this]
   · intro u
     simp only [nextSt]
-    cases ha : useAnony q.anon
+    cases ha : useAnony q.cfg q.anon
     · simp only [Bool.false_eq_true, if_false, and_true]
       exact bumpUser_lookup s.users q.userID u q.callerNp
     · simp only [if_true]
@@ -244,10 +245,10 @@ theorem post_frame (s : St) (q : Req) (e : Env) (b : BoardSt)
 theorem record_fields (q : Req) (e : Env) :
     C05.field (pRecord q e) Gen.RecFile.offFilename Gen.RecFile.lenFilename = copyInto Gen.RecFile.lenFilename e.name ∧
     C05.field (pRecord q e) Gen.RecFile.offOwner Gen.RecFile.lenOwner
-      = copyInto Gen.RecFile.lenOwner (if useAnony q.anon then Gen.Post.ANONYMOUS_ID else q.userID) ∧
+      = copyInto Gen.RecFile.lenOwner (if useAnony q.cfg q.anon then Gen.Post.ANONYMOUS_ID else q.userID) ∧
     C05.field (pRecord q e) Gen.RecFile.offDate Gen.RecFile.lenDate = copyInto Gen.RecFile.lenDate e.date := by
   unfold pRecord postRecord
-  cases useAnony q.anon
+  cases useAnony q.cfg q.anon
   · exact ⟨recordImage_filename .., recordImage_owner .., recordImage_date ..⟩
   · exact ⟨recordImage_filename .., recordImage_owner .., recordImage_date ..⟩
 
@@ -255,9 +256,9 @@ theorem record_fields (q : Req) (e : Env) :
 the real author's uid — is recorded little-endian in the `Multi` field of the new index entry. -/
 theorem multi_recorded (q : Req) (e : Env) :
     C05.field (pRecord q e) Gen.RecFile.offMulti Gen.RecFile.lenMulti
-      = le32 (if useAnony q.anon then q.uid else pMoney q) := by
+      = le32 (if useAnony q.cfg q.anon then q.uid else pMoney q) := by
   unfold pRecord postRecord storedMulti
-  cases useAnony q.anon
+  cases useAnony q.cfg q.anon
   · exact recordImage_multi ..
   · exact recordImage_multi ..
 
@@ -299,6 +300,43 @@ theorem write_failure_frame (s : St) (q : Req) (e : Env) :
   unfold postWriteFails
   rw [postTitle_eq]
   exact ⟨_, rfl, rfl, rfl⟩
+
+/-! #### anonymity is one fact (site switch AND board attribute), used by every site that depends on it -/
+
+/-- the model's decision sites consult exactly the configuration variables the source's functions read
+(regenerated by the translator from the function bodies and `ptttype.config()`); dropping or adding a guard in
+`checkBoardAnonymous`, `writeHeaderAuthor`, `isTnAllowed`, ... changes `Gen.Post.siteConfig`. -/
+theorem config_sites_match : Gen.Post.siteConfig = consults := by decide
+
+/-- A post is anonymous iff the site offers anonymous boards (`HAVE_ANONYMOUS`) AND the board carries
+`BRD_ANONYMOUS`.  Header author and nickname, the owner and file mode of the index entry, the `Multi` field and
+the signature's host all follow that ONE fact, for every configuration. -/
+theorem anonymity_consistent (q : Req) (e : Env) :
+    let a := q.cfg.haveAnonymous && q.anon
+    useAnony q.cfg q.anon = a ∧
+    headerAuthor q.cfg q.anon q.userID q.nick
+      = (if a then (cstr Gen.Post.ANONYMOUS_ID, Gen.Post.ANONYMOUS_NICKNAME) else (cstr q.userID, cstr q.nick)) ∧
+    C05.field (pRecord q e) Gen.RecFile.offOwner Gen.RecFile.lenOwner
+      = copyInto Gen.RecFile.lenOwner (if a then Gen.Post.ANONYMOUS_ID else q.userID) ∧
+    C05.field (pRecord q e) Gen.RecFile.offFilemode Gen.RecFile.lenFilemode = [if a then Gen.Post.FILE_ANONYMOUS else 0] ∧
+    signature (useAnony q.cfg q.anon) q.ip q.frm = signature a q.ip q.frm := by
+  refine ⟨rfl, ?_, ?_, ?_, rfl⟩
+  · unfold headerAuthor
+    cases q.cfg.haveAnonymous <;> cases q.anon <;> rfl
+  · exact (record_fields q e).2.1
+  · unfold pRecord postRecord useAnony
+    cases q.cfg.haveAnonymous && q.anon
+    · exact recordImage_filemode ..
+    · exact recordImage_filemode ..
+
+/-- the seeded rule "the attribute bit alone makes a post anonymous" disagrees with the header site exactly on
+such a site: the entry would say `Anonymous.` while the header of the same file names the author. -/
+theorem attribute_alone_is_inconsistent :
+    let c : Cfg := { haveAnonymous := false }
+    (headerAuthor c true [65, 0] [66]).1 = [65] ∧ useAnony c true = false ∧ (true : Bool) ≠ useAnony c true := by
+  decide
+
+example : useAnony {} true = true := by decide
 
 /-! #### the id of the new entry fetches the new file -/
 
@@ -467,7 +505,7 @@ theorem post_accepted (s : St) (q : Req) (e : Env) (b : BoardSt)
     post s q e = .ok (nextSt s q e b, .posted (nextPosted q e b)) ∧
     (∀ m, (findBoard (nextSt s q e b).boards m).isSome = (findBoard s.boards m).isSome) ∧
     (∀ u, numPostsOf (nextSt s q e b).users u =
-      (numPostsOf s.users u).map fun n => if u = q.userID ∧ useAnony q.anon = false then n + 1 else n) := by
+      (numPostsOf s.users u).map fun n => if u = q.userID ∧ useAnony q.cfg q.anon = false then n + 1 else n) := by
   refine ⟨post_eq s q e b (hwf ▸ hb), ?_, ?_⟩
   · intro m
     rw [nextSt_board s q e b hb hwf hx]
@@ -479,7 +517,7 @@ theorem post_accepted (s : St) (q : Req) (e : Env) (b : BoardSt)
       · simp [hm, hA]
   · intro u
     simp only [nextSt]
-    cases ha : useAnony q.anon
+    cases ha : useAnony q.cfg q.anon
     · simp only [Bool.false_eq_true, if_false, and_true]
       exact bumpUser_lookup s.users q.userID u q.callerNp
     · simp only [if_true]
@@ -492,7 +530,7 @@ theorem numposts_independent_of_caller_copy (s : St) (q : Req) (e : Env) (b : Bo
     (hb : findBoard s.boards q.board = some b) (hwf : q.dirBoard = q.board) (hx : q.board ≠ ALLPOST) :
     ∃ s' p, post s { q with callerNp := c } e = .ok (s', .posted p) ∧
       ∀ u, numPostsOf s'.users u =
-        (numPostsOf s.users u).map fun n => if u = q.userID ∧ useAnony q.anon = false then n + 1 else n := by
+        (numPostsOf s.users u).map fun n => if u = q.userID ∧ useAnony q.cfg q.anon = false then n + 1 else n := by
   obtain ⟨h1, _, h3⟩ := post_accepted s { q with callerNp := c } e b hb hwf hx
   exact ⟨_, _, h1, h3⟩
 
@@ -501,11 +539,29 @@ theorem caller_copy_refreshed (us : List (Bytes × Nat)) (id : Bytes) (n c : Nat
     callerAfter us id false c = n + 1 := by
   simp [callerAfter, h, incNumPost]
 
+/-- On a site configured without anonymous boards, a board record that still carries the attribute bit is an
+ordinary board: the post is recorded under its author, with the author's header and host, and counts. -/
+theorem flagged_board_on_site_without_anonymous (s : St) (q : Req) (e : Env) (b : BoardSt)
+    (hc : q.cfg.haveAnonymous = false)
+    (hb : findBoard s.boards q.board = some b) (hwf : q.dirBoard = q.board) (hx : q.board ≠ ALLPOST) :
+    ∃ s' p, post s q e = .ok (s', .posted p) ∧
+      C05.field p.record Gen.RecFile.offOwner Gen.RecFile.lenOwner = copyInto Gen.RecFile.lenOwner q.userID ∧
+      C05.field p.record Gen.RecFile.offFilemode Gen.RecFile.lenFilemode = [0] ∧
+      headerAuthor q.cfg q.anon q.userID q.nick = (cstr q.userID, cstr q.nick) ∧
+      signature (useAnony q.cfg q.anon) q.ip q.frm = signature false q.ip q.frm ∧
+      (∀ n, numPostsOf s.users q.userID = some n → numPostsOf s'.users q.userID = some (n + 1)) := by
+  obtain ⟨h1, _, h3⟩ := post_accepted s q e b hb hwf hx
+  obtain ⟨ha, hh, ho, hf, _⟩ := anonymity_consistent q e
+  simp only [hc, Bool.false_and, Bool.false_eq_true, if_false] at ha hh ho hf
+  refine ⟨_, _, h1, ho, hf, hh, by rw [ha], ?_⟩
+  intro n hn
+  rw [h3, hn, ha]; simp
+
 /-- posts a session operation makes in the name of user `u` that count. -/
 def postsBy (u : Bytes) : SOp → Nat
   | .load _ _ => 0
-  | .postAs _ q _ => if u = q.userID ∧ useAnony q.anon = false then 1 else 0
-  | .create q _ => if u = q.userID ∧ useAnony q.anon = false then 1 else 0
+  | .postAs _ q _ => if u = q.userID ∧ useAnony q.cfg q.anon = false then 1 else 0
+  | .create q _ => if u = q.userID ∧ useAnony q.cfg q.anon = false then 1 else 0
 
 def OpAccepted (s : St) : SOp → Prop
   | .load _ _ => True
